@@ -194,4 +194,6 @@ def main(out=OUT):
 
 if __name__ == "__main__":
     b, rs = main()
+    import gen_ast                     # the source translation of the same module (harness/gen_ast.py)
+    print("gen_c07:", os.path.relpath(gen_ast.gen_exceptions(), ROOT))
     print(f"gen_c07: {len(rs)} classes, {sum(r['reg'] for r in rs)} registered -> {os.path.relpath(OUT, ROOT)}")
